@@ -52,6 +52,11 @@ def gen_case(rnd):
         comps = [base] + rnd.sample([c for c in COMPS if c != base], n - 1)
         if rnd.random() < 0.5:
             comps.append(base + "_x")
+    elif rnd.random() < 0.12:
+        # layouts like mysite/mysite/urls.py: dotted component names that start with the base module's own name
+        base = rnd.choice(["app", "a"])
+        inner = rnd.sample([c for c in COMPS if c != base], 2)
+        comps = [f"{base}.{inner[0]}"] + ([f"{base}.{inner[1]}"] if rnd.random() < 0.5 else []) + rnd.sample([c for c in COMPS if c not in inner and c != base], max(1, n - 2))
     return _gen_case(rnd, base, comps)
 
 
@@ -142,6 +147,8 @@ def evaluate(case, acc, seed_for_forms):
             HUB.violation("C07", f"base-module-twin-differs:{'should_only' if mode else 'should'}", "with_base_module(p) on short names differs from fully qualified component names", {"short": [o1, m1], "fq": [o2, m2], "case": case})
         if BASE != "r.app":
             acc.count("base_module_named_like_a_component")
+        if any(c.startswith(BASE + ".") for c in case["comps"]):
+            acc.count("dotted_components_starting_with_the_base_name")
         if case["rel"] and case["imps"] and acc.counters["c07_judged"] > before:
             acc.nontrivial({"c": case, "m": mode})
         results[mode] = o1
@@ -208,6 +215,8 @@ def floors(acc, tier):
             for o in ("pass", "fail"):
                 if m.get(f"{mode}:{naming}:{o}", 0) == 0:
                     why.append(f"never observed {mode}:{naming}:{o}")
+    if acc.counters["dotted_components_starting_with_the_base_name"] < 30:
+        why.append("too few diagrams with dotted components that start with the base module's name")
     if acc.counters["base_module_named_like_a_component"] < 50:
         why.append("too few cases with a component named like the base module")
     if acc.counters["reused_rule_sequences_with_changing_verdict"] < 20:
